@@ -22,6 +22,7 @@ def dispatch (line : String) : Verdict :=
   match l with
   | "C02" :: "sys" :: args => c01sys args r
   | "C12" :: "sys" :: args => c01sys args r
+  | "C12" :: "cand" :: args => c02cand args r
   | "C02" :: "hist" :: args => c02hist args r
   | "C02" :: "cand" :: args => c02cand args r
   | "C02" :: args => c02 args r
